@@ -116,6 +116,22 @@ def run(ctx):
                 ctx.ob('T25.keyattr', f.fq, 'an element without the attribute named by `key` is keyed by itself (as in the sibling helpers)',
                        txt(n.args[2]) == txt(n.args[0]), loc=loc(f, n), detail=txt(n))
     if n_ga < 2:
+        # the siblings may share one private factory for the key function: then there is a single site, judged alike
+        shared = []
+        for fname, f in sorted(prog.module(M).functions.items()):
+            if not fname.startswith('_') or len(f.params) != 1:
+                continue
+            for n in ast.walk(f.node):
+                if isinstance(n, ast.Call) and call_name(n) == 'getattr' and len(n.args) == 3 and txt(n.args[1]) == f.params[0]:
+                    users = [g for g in prog.module(M).functions.values() if 'key' in g.params and any(
+                        isinstance(c, ast.Call) and call_name(c) == fname for c in ast.walk(g.node))]
+                    if len(users) >= 2:
+                        shared.append((f, n, users))
+        for f, n, users in shared:
+            n_ga += len(users)
+            ctx.ob('T25.keyattr', f.fq, 'an element without the attribute named by the key is keyed by itself (one factory shared by %d '
+                   'helpers)' % len(users), txt(n.args[2]) == txt(n.args[0]), loc=loc(f, n), detail=txt(n))
+    if n_ga < 2:
         ctx.unknown('T25.keyattr', M, 'fewer than two getattr(x, key, <fallback>) sites found (%d)' % n_ga, 'boltons/iterutils.py')
     # T10e element conservation (rules/conserve.py) for the helpers that keep every element they do not filter out.
     # rstrip_iter (trailing run is held back and dropped on purpose) and redundant (first occurrences are remembered, only
